@@ -10,4 +10,4 @@ for p in $props; do
   echo "$out" | grep -v "^KNOWN-FINDING" | tail -4
   echo "SEED $id vs $p: rc=$rc"
 done
-git -C /repo checkout -- . ; git -C /repo status --short | head -3
+git -C /repo checkout -- . ; git -C /repo status --short | head -3; git -C /verif checkout -- evidence/ 2>/dev/null
